@@ -14,7 +14,7 @@ int main(int argc, char **argv) {
   if (argc < 5) { fprintf(stderr, "usage: hx <driver> quick|thorough <seed> <tracefile> [extra]\n"); return 3; }
   tier = !strcmp(argv[2], "thorough"); seed = strtoul(argv[3], NULL, 0);
   for (i = 0; i < sizeof drivers / sizeof drivers[0]; i++) if (!strcmp(drivers[i].name, argv[1])) {
-    rec_init(argv[4]); rnd_seed(seed * 0x9e3779b97f4a7c15ULL + i);
+    rec_init(argv[4]); gw_load(argv[0]); rnd_seed(seed * 0x9e3779b97f4a7c15ULL + i);
     drivers[i].fn(tier, seed, argc > 5 ? argv[5] : "");
     rec_finish();
     fprintf(stderr, "hx %s: %ld events, %ld calls\n", argv[1], n_events, n_calls);
